@@ -912,7 +912,7 @@ struct Exec {
             return;
         }
         Json j;
-        if (!Json::parse(t, j)) {
+        if (!Json::parse_rfc(t, j)) {
             out.other["json.harness_parser_disagrees"]++;
             return;
         }
@@ -1399,7 +1399,6 @@ struct Exec {
     // ---- ops
     bool load_grammar(DecState &s, const Json &g, int opi)
     {
-        (void)opi;
         const std::string &kind = g.gets("kind");
         const std::string &text = g.gets("text");
         int rv = -1;
@@ -1428,6 +1427,28 @@ struct Exec {
             s.nfa = Nfa::from_json(g["nfa"]);
             s.gkind = kind;
             out.probes["dec.grammar_loaded." + kind]++;
+            // C16: "numbered alternates are ... usable immediately in grammars": every alternate the reference map knows
+            // for a word of this grammar must be in the loaded grammar's vocabulary (alternates are added at load time
+            // unless fsgusealtpron is off)
+            if (profile == "C16" && config_bool(s.d->config, "fsgusealtpron") && s.d->search) {
+                fsg_model_t *fsg = ((fsg_search_t *)s.d->search)->fsg;
+                std::set<std::string> labels;
+                for (auto &a : s.nfa.arcs)
+                    if (!a.label.empty())
+                        labels.insert(a.label);
+                out.checks++;
+                for (auto &w : labels) {
+                    auto it = s.alt_model.find(w);
+                    if (it == s.alt_model.end() || fsg_model_word_id(fsg, w.c_str()) < 0)
+                        continue;
+                    for (auto &alt : it->second)
+                        if (fsg_model_word_id(fsg, alt.c_str()) < 0) {
+                            viol("C16", "alternates_usable_in_grammar", "missing", "grammar with the word '" + w + "' was loaded but its alternate '" + alt + "' is not in the search vocabulary", opi);
+                            break;
+                        }
+                    out.probes["dict.alternates_in_grammar_checked"]++;
+                }
+            }
         } else
             out.probes["dec.grammar_refused." + kind]++;
         return rv == 0;
